@@ -149,4 +149,41 @@ func Parse$1 [C07]
   tag raisesFaulty
   ensures err.Level == ddperror.LEVEL_ERROR ==> scanErrored
   ensures $deliveredErr == (old($deliveredErr) || err.Level == ddperror.LEVEL_ERROR)
+
+// ================= C19: literals denote their written value =================
+// value of an escape character
+spec escVal(r int) int := r == 97 ? 7 : (r == 98 ? 8 : (r == 110 ? 10 : (r == 114 ? 13 : (r == 116 ? 9 : r))))
+spec charEscapeOK(r int) bool := r == 97 || r == 98 || r == 110 || r == 114 || r == 116 || r == 39 || r == 92
+spec textEscapeOK(r int) bool := r == 97 || r == 98 || r == 110 || r == 114 || r == 116 || r == 34 || r == 92
+spec charBody(s string) string := strings.TrimPrefix(strings.TrimSuffix(s, "'"), "'")
+
+// scanner and parser agree on the escape sequences of characters and texts: an escape the parser cannot decode
+// has already been reported by the scanner, and vice versa
+lemma L_char_escapes_agree [C19]: forall r int :: scanner.escapeOK(r, 39) <==> charEscapeOK(r)
+lemma L_text_escapes_agree [C19]: forall r int :: scanner.escapeOK(r, 34) <==> textEscapeOK(r)
+
+// a character literal: one code point denotes itself, backslash + escape character denotes the escape's value,
+// an unknown escape is reported
+func (*parser).parseChar [C19]
+  returns r
+  requires p != nil
+  ensures runeLen(charBody(s)) == 1 ==> r == utf8.strFirstRune(charBody(s))
+  ensures runeLen(charBody(s)) == 2 && charEscapeOK(utf8.strLastRune(charBody(s))) ==> r == escVal(utf8.strLastRune(charBody(s)))
+  ensures runeLen(charBody(s)) == 2 && !charEscapeOK(utf8.strLastRune(charBody(s))) && !old(p.panicMode) ==> $deliveredErr
+  ensures runeLen(charBody(s)) != 1 && runeLen(charBody(s)) != 2 ==> r == -1
+
+// an integer literal: the written value if it is representable in 64 bits, otherwise a diagnostic (never a silently altered value)
+func (*parser).parseIntLit [C19]
+  requires p != nil
+  at LP after call previous
+  ensures result != nil
+  ensures strconv.intLitOK(lit.Literal, 10, 64) ==> result.Value == strconv.intLitVal(lit.Literal, 10) && $deliveredErr == old($deliveredErr)
+  ensures !strconv.intLitOK(lit.Literal, 10, 64) && !old(p.panicMode) ==> $deliveredErr
+
+// unescaping a text literal never reads outside the text and always terminates
+func (*parser).parseString [C19, C03]
+  safe
+  requires p != nil
+  loop 0 invariant 0 <= i && 0 <= w
+  loop 0 decreases len(str) - i
 @*/
